@@ -100,7 +100,7 @@ func c09Data(in c09Input, fn c09Fn) []mockq.Rec {
 			}
 			labels = append(labels, mockq.KV{K: "v", V: v})
 		}
-		recs = append(recs, mockq.Rec{TS: c09Base*sec + int64(s)*in.unit(), Line: "xyz", Labels: labels})
+		recs = append(recs, mockq.Rec{TS: c09Base*sec + int64(s)*in.unit(), Line: "xy\u00e9\u4e16", Labels: labels}) // 4 characters, 7 bytes
 	}
 	for i, s := range in.A {
 		add("a", s, 0)
